@@ -9,6 +9,10 @@ var vVector []uint64
 var vPos int
 var vOpenKnown = map[string]bool{}
 
+// vTarget: when set, only a failure of this assertion id stops the native run (a replayed counterexample for one
+// assertion must not be masked by an earlier failing assertion that belongs to another property)
+var vTarget string
+
 func vSetVector(v []uint64) { vVector, vPos = v, 0 }
 
 func vnext() uint64 {
@@ -54,7 +58,7 @@ func vassume(c bool) {
 }
 
 func vassert(id string, c bool) {
-	if !c {
+	if !c && (vTarget == "" || vTarget == id) {
 		panic("VASSERT-FAIL " + id)
 	}
 }
